@@ -445,6 +445,16 @@ func (a *Activation) applyContract(con *FuncContract, fn *ssa.Function, args []V
 	for _, r := range res {
 		a.wfRefPost(post, r)
 	}
+	if con.hasClause("returnsfresh") {
+		// the callee hands back a newly allocated object nobody else knows yet: private to the caller until it escapes
+		for i, r := range res {
+			if r.K == KRef && r.Loc == nil {
+				if T := derefType(sig.Results().At(i).Type()); T != nil {
+					post.private = append(post.private, privRef{r.S, prefixFor(T)})
+				}
+			}
+		}
+	}
 	return post, res
 }
 
